@@ -73,6 +73,12 @@ def gen_line(d: D, table: dict, names: List[str]) -> dict:
         else:
             text = base + " --no-such-option"
         return {"kind": "badargs", "text": text.strip()}
+    if r < 81:
+        # a long line (still below the 64 KiB stream limit): its reply quotes the token, i.e. is longer than any I/O buffer size
+        n = d.pick([8200, 9000, 20000, 60000])
+        head = d.pick(["bogus", "cancel ", "pool-size ", "get-group-ids g ", "lock --", "\u00e9"])
+        unit = d.pick(["x", "9x", "%s", "ab "])
+        return {"kind": "long", "text": (head + unit * (n // len(unit) + 1))[:n].strip()}
     # junk
     n = d.i(1, 12)
     toks = []
@@ -127,14 +133,14 @@ class C18Engine(Engine):
     rule = ("1..3 concurrent sessions on one pool; lines: well-formed commands (incl. the blocking ones), help requests with -h/--help in any "
             "position, unknown command words, known commands with missing / surplus / ill-typed arguments, unknown options, failing dotted "
             "paths and malformed literals, and junk built from printable ASCII, unicode and argparse/format-string meta fragments up to "
-            "4000 characters. Oracle: exactly one write (ending in a newline) per non-blank line, in order; the session stays alive and "
+            "4000 characters, and lines of 8-60 thousand characters (replies longer than an I/O buffer). Oracle: exactly one write (ending in a newline) per non-blank line, in order; the session stays alive and "
             "answers a following num-running; for lines that are not a command by construction (first token no command name, or an "
             "invalid form of a known command): pool snapshot unchanged and reply equal to the reply the same line gets in a fresh session of "
             "an identical pool; nothing on stdout/stderr; no SystemExit. Non-trivial: a help reply is immediately followed by a shorter "
             "reply in the same session and a conversion failure occurred; Distinct = case hash.")
     assumptions = ["lines are non-blank, contain no line break and stay below the 64 KiB stream limit (the statement's domain)",
                    "logging is routed to a NullHandler first, so that logging (documented) is not mistaken for printing"]
-    bounds = {"lines per case": "2..14", "line length": "<=4000", "sessions": "1..3"}
+    bounds = {"lines per case": "2..14", "line length": "<=4000, long lines 8200..60002", "sessions": "1..3"}
 
     def strategies(self, tier: str):
         return [("default", st.binary(min_size=NB, max_size=NB).map(decode), 1500 if tier == "quick" else 60000)]
@@ -193,6 +199,8 @@ class C18Engine(Engine):
         def not_a_command(ln: dict) -> bool:
             if ln["kind"] in ("help", "unknown", "badargs", "badvalue"):
                 return True
+            if ln["kind"] == "long":
+                return not ln["text"].startswith("get-group-ids")
             if ln["kind"] == "junk":
                 return ln["text"].strip().split(" ")[0] not in cmdnames
             return False
